@@ -348,7 +348,7 @@ impl InterfaceGenerator<'_> {
             uwrite!(
                 self.csharp_interop_src,
                 r#"
-                [global::System.Runtime.InteropServices.DllImportAttribute("{import_module_name}", EntryPoint = "[{future_stream_name_lower}-drop-writeable-{index}]{future_name}"), global::System.Runtime.InteropServices.WasmImportLinkageAttribute]
+                [global::System.Runtime.InteropServices.DllImportAttribute("{import_module_name}", EntryPoint = "[{future_stream_name_lower}-drop-writable-{index}]{future_name}"), global::System.Runtime.InteropServices.WasmImportLinkageAttribute]
                 internal static extern void {future_stream_name}DropWriteable{upper_camel_future_type}(int writeable);
                 "#
             );
